@@ -109,6 +109,8 @@ def applyOperator [DecidableEq α] (o : MPO α) (ψ : MPS α) : Except Err (MPS 
   pyAssert (ψ.A.length == o.A.length)
   let L := ψ.A.length
   let qD := (List.range (L + 1)).map fun i => QN.flatten2 (o.qD.getD i []) (ψ.qD.getD i [])
+  -- `MPS(psi.qd, qD, fill='postpone')`: leading and trailing bond dimensions must be 1
+  pyAssert ((qD.head?.map List.length) == some 1 && (qD.getLast?.map List.length) == some 1)
   let mut As : List (T3 α) := []
   for i in List.range L do
     match o.A[i]?, ψ.A[i]? with
